@@ -381,6 +381,78 @@ theorem script_tags_from_unicode_safe (u : Nat) :
     · simp [hm, setTag, Res.bind]
     · simp [hm, setTag, Res.bind]
 
+/-! ## GSUB glyph closure
+
+Statements are over ARBITRARY parsed tables (`GsubT` with every lazily resolved table an `Ok` value or
+any `ReadError`): unsorted / overlapping coverage, lookup and sequence indices beyond their arrays,
+null and dangling offsets, contextual lookups that reference themselves. -/
+
+/-- **no subtable's `add_reachable_glyphs` can panic**, in particular not at
+`coverage.iter().nth(i).unwrap()` (the index `i` is an index of `coverage.iter().zip(rule_sets())`) nor at
+`sequence_index as usize - 1` (taken only for `sequence_index ≠ 0`; an index beyond the input sequence
+is skipped by `.get(..)`) nor in `ClassDef::get`.  The glyph set only grows and stays a set of `u16`s,
+`finished_lookups` / `cur_glyphs` are untouched, and at most `subCost s` (= the number of sequence
+lookup records) todos are pushed. -/
+theorem subtable_closure_safe (s : Sub) (c : Cx) (h : Good c) :
+    subAdd c s ≠ .trap ∧ ∀ c', subAdd c s = .ok c' → Eff c c' (subCost s) := by
+  have := subAdd_safe s c h
+  cases hr : subAdd c s with
+  | trap => rw [hr] at this; exact absurd this (by simp [Safe])
+  | err e => exact ⟨by simp, fun c' h => by cases h⟩
+  | ok c1 => rw [hr] at this; exact ⟨by simp, fun c' h => by injection h with h; subst h; exact this⟩
+
+/-- **`closure_glyphs_once` terminates**: the `while let Some(todo) = ctx.pop_a_todo()` loop, in which
+contextual lookups push further (even their own) lookups, makes at most `onceFuel L K R` trips for a
+lookup list of `L` lookups each with at most `K` sequence lookup records and `R` reachable lookups —
+`needs_to_do_lookup` lets a lookup run again only when the closure grew or its set of already covered
+glyphs grows, and both are bounded by the 65536 glyph ids.  No panic; the glyphs only grow. -/
+theorem closure_once_terminates (g : GsubT) (reachable : List Nat) (c : Cx) (hG : Good c) (hF : FinOk c)
+    (ht : c.todos = []) (fuel : Nat)
+    (hfuel : ∀ ls, g.lookups = .ok ls → onceFuel ls.length (maxCost ls) reachable.length ≤ fuel) :
+    ∃ r, closureOnce g reachable fuel c = some r ∧ r ≠ .trap ∧
+      ∀ c', r = .ok c' → Good c' ∧ (∀ x ∈ c.glyphs, x ∈ c'.glyphs) ∧ c'.todos = [] := by
+  obtain ⟨r, hr, hp⟩ := closureOnce_terminates g reachable c hG hF ht fuel hfuel
+  refine ⟨r, hr, ?_, ?_⟩
+  · intro h; subst h; exact hp
+  · intro c' h; subst h; exact ⟨hp.1, hp.2.2.1, hp.2.2.2.2⟩
+
+/-- **`Gsub::closure_glyphs` terminates and never panics, for every table and every input set**: the
+model's fuel (65538 passes, `onceFuel` todo-loop trips per pass) always suffices — every pass but the
+last finds a new glyph id and there are 65536 of them.  The result is `Err(ReadError)` or a set of `u16`
+glyph ids that contains the input set. -/
+theorem closure_glyphs_terminates (g : GsubT) (glyphs : G16) (hg : Inc16 glyphs) :
+    ∃ r, closureGlyphs g glyphs = some r ∧ r ≠ .trap ∧
+      ∀ gs, r = .ok gs → Inc16 gs ∧ gs.length ≤ 65536 ∧ ∀ x ∈ glyphs, x ∈ gs := by
+  unfold closureGlyphs
+  cases hr : findReachable g with
+  | error e => exact ⟨.err e, rfl, by simp, fun gs h => by cases h⟩
+  | ok reachable =>
+    simp only []
+    have hfuel : ∀ ls, g.lookups = .ok ls → onceFuel ls.length (maxCost ls) reachable.length ≤
+        closureFuel g reachable := by
+      intro ls hl; simp [closureFuel, hl]
+    have hG : Good ⟨glyphs, none, [], []⟩ := ⟨hg, by simp⟩
+    have hF : FinOk ⟨glyphs, none, [], []⟩ := by intro e he; simp at he
+    obtain ⟨r, hr2, hp⟩ := closureLoop_terminates g reachable _ hfuel 65538 (0, 0) ⟨glyphs, none, [], []⟩ hG hF rfl
+      (by simp only []; omega)
+    rw [hr2]
+    cases r with
+    | trap => exact absurd hp (by simp [PassPost])
+    | err e => exact ⟨.err e, rfl, by simp, fun gs h => by cases h⟩
+    | ok c =>
+      refine ⟨.ok c.glyphs, rfl, by simp, fun gs h => ?_⟩
+      injection h with h
+      subst h
+      exact ⟨hp.1.1, hp.1.1.length_le, hp.2.2.1⟩
+
+/-- the fixpoint loop alone: at most `65536 − |glyphs| + 2` passes (`fuelO`) -/
+theorem closure_passes_bounded (g : GsubT) (reachable : List Nat) (fuelI : Nat)
+    (hfuel : ∀ ls, g.lookups = .ok ls → onceFuel ls.length (maxCost ls) reachable.length ≤ fuelI)
+    (c : Cx) (hG : Good c) (hF : FinOk c) (ht : c.todos = []) (prev : Nat × Nat) :
+    ∃ r, closureLoop g reachable fuelI (65536 - c.glyphs.length + 2) prev c = some r ∧ r ≠ .trap := by
+  obtain ⟨r, hr, hp⟩ := closureLoop_terminates g reachable fuelI hfuel _ prev c hG hF ht (Nat.le_refl _)
+  exact ⟨r, hr, by intro h; subst h; exact hp⟩
+
 /-! ## non-vacuity -/
 
 /-- the spec examples of layout.rs -/
@@ -413,5 +485,19 @@ example : select [tg 'D' 'F' 'L' 'T', tg 'c' 'y' 'r' 'l', tg 'l' 'a' 't' 'n'] [t
     some (tg 'l' 'a' 't' 'n', 2, false) := by decide +kernel
 example : select [tg 'D' 'F' 'L' 'T', tg 'c' 'y' 'r' 'l'] [tg 't' 'h' 'a' 'i'] = some (tg 'D' 'F' 'L' 'T', 0, true) := by
   decide +kernel
+
+/-- a contextual lookup that references itself (rule set of glyph 1, record (0 → lookup 0)) next to a
+single substitution 1 → 2: terminates with {1, 2} -/
+example : closureGlyphs
+    ⟨.ok [.ok [0, 1]], none,
+     .ok [.ok (.ok [.ok (.ctx1 (.ok (.fmt1 [1])) [some (.ok [.ok ⟨[], [], [], [⟨0, 0⟩, ⟨0, 1⟩, ⟨7, 0⟩]⟩])])]),
+          .ok (.ok [.ok (.single1 (.ok (.fmt1 [1])) 1)])]⟩ [1] = some (.ok [1, 2]) := by decide +kernel
+/-- a lookup index beyond the list is an error value, not a panic -/
+example : closureGlyphs ⟨.ok [.ok [3]], none, .ok []⟩ [1] = some (.err (.badIndex 3)) := by decide +kernel
+example : Good ⟨[1, 5], none, [], [(0, some [5])]⟩ := by
+  refine ⟨⟨by simp, by simp⟩, ?_⟩
+  intro t ht a ha
+  simp at ht; subst ht; injection ha with ha; subst ha
+  exact ⟨by simp, by simp⟩
 
 end FontVerif.C01HandLayout
